@@ -70,32 +70,44 @@ def lexer_patterns(model: Model) -> Dict[str, str]:
     return out
 
 
+_TOKRE_CACHE: Dict[int, Dict[str, List[str]]] = {}
+
+
 def token_regexes(model: Model) -> Dict[str, List[str]]:
-    """TokenType name -> names of the regex constants whose match is emitted as that token."""
-    lex = model.module("lex")
+    """TokenType name -> names of the regex constants whose match is emitted as that token.
+
+    Read off the interpreted lexer states: on every path of one generic iteration that emits exactly one token whose
+    text is what a regex constant just matched at the pointer, that constant recognises that token type (whatever
+    the control flow around it looks like: if/elif ladders, guard clauses, match statements, helpers)."""
+    if id(model) in _TOKRE_CACHE:
+        return _TOKRE_CACHE[id(model)]
+    from . import _lexstates
+
+    pats = lexer_patterns(model)
+    by_pattern: Dict[str, List[str]] = {}
+    for name, p_ in pats.items():
+        by_pattern.setdefault(p_, []).append(name)
     out: Dict[str, List[str]] = {}
-    for fi in model.functions.values():
-        if fi.module is not lex:
+    configs = [("lex_shorthand_selector", dict(filter_depth=0)), ("lex_descendant_segment", dict(filter_depth=0)),
+               ("lex_inside_bracketed_segment", dict(filter_depth=0, bracket_top="[")),
+               ("lex_inside_filter", dict(filter_depth=1, bracket_top="[")), ("lex_inside_filter", dict(filter_depth=1, bracket_top="(", in_function=1))]
+    for state, cfg in configs:
+        try:
+            steps = _lexstates.lexer_iteration(model, state, **cfg)
+        except (Unsupported, AnalysisError):
             continue
-        for node in ast.walk(fi.node):
-            if not isinstance(node, ast.If):
+        for s_ in steps:
+            if s_.error or s_.raised or len(s_.tokens) != 1:
                 continue
-            pats = [
-                c.args[0].id
-                for c in ast.walk(node.test)
-                if isinstance(c, ast.Call) and isinstance(c.func, ast.Attribute) and c.func.attr == "accept_match" and c.args and isinstance(c.args[0], ast.Name)
-            ]
-            if not pats:
+            matched = [pt for pt, ok, off in s_.regex if ok and not _lexstates.pat_is_blank(pt)]
+            if len(matched) != 1:
                 continue
-            for st in node.body:
-                for c in ast.walk(st):
-                    if isinstance(c, ast.Call) and isinstance(c.func, ast.Attribute) and c.func.attr == "emit" and c.args:
-                        a = c.args[0]
-                        if isinstance(a, ast.Attribute):
-                            out.setdefault(a.attr, [])
-                            for p in pats:
-                                if p not in out[a.attr]:
-                                    out[a.attr].append(p)
+            ttype = s_.tokens[0][0]
+            for name in by_pattern.get(matched[0], []):
+                out.setdefault(ttype, [])
+                if name not in out[ttype]:
+                    out[ttype].append(name)
+    _TOKRE_CACHE[id(model)] = out
     return out
 
 
